@@ -42,6 +42,12 @@ type lfState struct {
 	piles  map[string]bool    // LockPile variable -> may contain locks
 	broken map[string]bool    // keys that were released at some point (for region queries)
 	ret    token.Pos          // position of the return statement this path left through (0 = fell off the end)
+	// retClass: "ok" when the path returns a nil error (last result), "fail" when it returns a non-nil
+	// one, "" when the function has no error result / fell off the end
+	retClass string
+	// callOutcome: set (until the end of the statement) on the two states a call of a function with
+	// result-correlated lock effects forks into; the enclosing assignment binds it to the error variable
+	callOutcome string
 }
 
 func newState() *lfState {
@@ -67,11 +73,14 @@ func (s *lfState) clone() *lfState {
 	}
 	n.defers = append([]ast.Node{}, s.defers...)
 	n.ret = s.ret
+	n.retClass = s.retClass
+	n.callOutcome = s.callOutcome
 	return n
 }
 
 func (s *lfState) sig() string {
 	var b strings.Builder
+	b.WriteString(s.retClass + "/" + s.callOutcome + "|")
 	ks := make([]string, 0, len(s.keys))
 	for k := range s.keys {
 		ks = append(ks, k)
@@ -196,18 +205,24 @@ type FuncSummary struct {
 	Params  []string // parameter identifier names (flattened)
 	Body    *ast.BlockStmt
 	Effects map[string]*KeyEffect
-	Events  map[string]*Event
-	Needs   map[string]*GuardAccess // class -> first unguarded access (transitive)
-	Diags   []lfDiag
-	Exits   int
-	Paths   int
+	// EffectsFail: when non-nil, the function's effect on its locks depends on its error result:
+	// Effects applies when it returns nil, EffectsFail when it returns an error (e.g. a wait helper
+	// that "returns with the lock held on success and dropped on failure")
+	EffectsFail map[string]*KeyEffect
+	Events      map[string]*Event
+	Needs       map[string]*GuardAccess // class -> first unguarded access (transitive)
+	Diags       []lfDiag
+	Exits       int
+	Paths       int
 	// IsGoroutine / IsCallback: function literals that are not inlined
 	LitRole string
 	// ParamCallHeld: for function-typed parameters that the function invokes: the lock classes held at
 	// every such invocation (param name -> set). Absent = the parameter is never invoked directly.
 	ParamCallHeld map[string]map[string]bool
+	// Called: some function of the repository calls this one directly (static call)
+	Called bool
 	// lock operations seen (for instance counting)
-	LockOps int
+	LockOps    int
 	EvOverflow bool
 }
 
@@ -229,12 +244,12 @@ type OrderEdge struct {
 }
 
 type LockEngine struct {
-	P         *Program
-	Sums      map[any]*FuncSummary // key: *types.Func or *ast.FuncLit
-	Order     []*FuncSummary
-	Edges     map[string]*OrderEdge
-	Guarded   map[*types.Var]string // field -> lock class that must be held
-	GuardOK   func(fn *FuncSummary, field *types.Var, pos token.Pos) bool
+	P       *Program
+	Sums    map[any]*FuncSummary // key: *types.Func or *ast.FuncLit
+	Order   []*FuncSummary
+	Edges   map[string]*OrderEdge
+	Guarded map[*types.Var]string // field -> lock class that must be held
+	GuardOK func(fn *FuncSummary, field *types.Var, pos token.Pos) bool
 	// extra blocking callees (frozen per lock class): callee -> classes under which it must not be called
 	BlockingCallees map[*types.Func]string
 	IfaceImpls      map[*types.Func][]*types.Func // interface method -> repo implementations (thorough)
@@ -244,7 +259,7 @@ type LockEngine struct {
 	// Singleton: lock classes with one instance per component, so that class-level reasoning through
 	// class-hierarchy-resolved interface calls is instance-level reasoning (value = reason)
 	Singleton map[string]string
-	Wakers map[*types.Var][]*FuncSummary // channel field -> functions that close or send on it
+	Wakers    map[*types.Var][]*FuncSummary // channel field -> functions that close or send on it
 	// GuardedTypes: named container types (heaps, sortable lists) whose manipulation through
 	// container/heap or sort counts as an access to state guarded by the given lock class
 	GuardedTypes map[*types.TypeName]string
@@ -259,19 +274,21 @@ type LockEngine struct {
 // expression canonicalisation
 
 type fctx struct {
-	eng     *LockEngine
-	sum     *FuncSummary
-	info    *types.Info
-	aliases map[*types.Var]ast.Expr
-	selects map[ast.Stmt]*ast.SelectStmt // comm stmt -> its select
-	selFirst map[*ast.SelectStmt]ast.Stmt
+	eng       *LockEngine
+	sum       *FuncSummary
+	info      *types.Info
+	aliases   map[*types.Var]ast.Expr
+	selects   map[ast.Stmt]*ast.SelectStmt // comm stmt -> its select
+	selFirst  map[*ast.SelectStmt]ast.Stmt
 	boolConds map[ast.Expr]bool
-	litVars map[*types.Var]*ast.FuncLit // local variables bound once to a function literal
-	condUse map[string]int             // how many branch conditions mention each memo key
-	localPile map[string]bool          // LockPile variables declared in this function (by value)
-	depth   int
-	exits   []*lfState
-	diagSeen map[string]bool
+	litVars   map[*types.Var]*ast.FuncLit // local variables bound once to a function literal
+	condUse   map[string]int              // how many branch conditions mention each memo key
+	localPile map[string]bool             // LockPile variables declared in this function (by value)
+	depth     int
+	exits     []*lfState
+	diagSeen  map[string]bool
+	// errorResult: the analysed function's last result is an error (exits are classified ok/fail)
+	errorResult bool
 }
 
 func (fc *fctx) canon(e ast.Expr) string {
@@ -628,6 +645,17 @@ func (e *LockEngine) analyse(s *FuncSummary) (changed bool) {
 	info := s.Pkg.TypesInfo
 	fc := &fctx{eng: e, sum: s, info: info, aliases: map[*types.Var]ast.Expr{}, selects: map[ast.Stmt]*ast.SelectStmt{}, selFirst: map[*ast.SelectStmt]ast.Stmt{}, boolConds: map[ast.Expr]bool{}, litVars: map[*types.Var]*ast.FuncLit{}, diagSeen: map[string]bool{}, condUse: map[string]int{}, localPile: map[string]bool{}}
 	oldSig := summarySig(s)
+	var ftype *types.Signature
+	if s.Fn != nil {
+		ftype, _ = s.Fn.Type().(*types.Signature)
+	} else if s.Lit != nil {
+		if tv, ok := info.Types[s.Lit]; ok {
+			ftype, _ = tv.Type.(*types.Signature)
+		}
+	}
+	if ftype != nil && ftype.Results().Len() > 0 && isErrorType(ftype.Results().At(ftype.Results().Len()-1).Type()) {
+		fc.errorResult = true
+	}
 	s.Diags = nil
 	s.Events = map[string]*Event{}
 	s.Needs = map[string]*GuardAccess{}
@@ -661,6 +689,16 @@ func summarySig(s *FuncSummary) string {
 	sort.Strings(ks)
 	for _, k := range ks {
 		ef := s.Effects[k]
+		fmt.Fprintf(&b, "%s:%d:%d:%d:%v;", k, ef.Pre, ef.Delta, ef.DeltaR, ef.Touched)
+	}
+	b.WriteString("#F")
+	ks = ks[:0]
+	for k := range s.EffectsFail {
+		ks = append(ks, k)
+	}
+	sort.Strings(ks)
+	for _, k := range ks {
+		ef := s.EffectsFail[k]
 		fmt.Fprintf(&b, "%s:%d:%d:%d:%v;", k, ef.Pre, ef.Delta, ef.DeltaR, ef.Touched)
 	}
 	b.WriteString("#")
@@ -1003,6 +1041,7 @@ func (fc *fctx) runDefers(st *lfState) []*lfState {
 
 // transferNode interprets one CFG node.
 func (fc *fctx) transferNode(n ast.Node, st *lfState) []*lfState {
+	st.callOutcome = "" // only meaningful within the statement that made the call
 	switch x := n.(type) {
 	case *ast.DeferStmt:
 		// evaluate arguments now (they may contain calls), run the call at exit
@@ -1031,6 +1070,22 @@ func (fc *fctx) transferNode(n ast.Node, st *lfState) []*lfState {
 		}
 		for _, s := range cur {
 			s.ret = x.Pos()
+			s.retClass = ""
+			outcome := s.callOutcome
+			s.callOutcome = ""
+			if fc.errorResult && len(x.Results) == 1 && outcome != "" {
+				if _, isCall := ast.Unparen(x.Results[0]).(*ast.CallExpr); isCall {
+					s.retClass = outcome
+					continue
+				}
+			}
+			if fc.errorResult && len(x.Results) > 0 {
+				if isNilIdent(x.Results[len(x.Results)-1]) {
+					s.retClass = "ok"
+				} else {
+					s.retClass = "fail"
+				}
+			}
 		}
 		return cur
 	case *ast.SendStmt:
@@ -1064,6 +1119,15 @@ func (fc *fctx) transferNode(n ast.Node, st *lfState) []*lfState {
 		}
 		for _, s := range cur {
 			fc.invalidate(s, x.Lhs)
+			// result-correlated callee: the error variable now tells which way the callee went
+			if s.callOutcome != "" && len(x.Rhs) == 1 {
+				if id, ok := x.Lhs[len(x.Lhs)-1].(*ast.Ident); ok && id.Name != "_" {
+					if _, isCall := ast.Unparen(x.Rhs[0]).(*ast.CallExpr); isCall {
+						s.memo[fc.cmpKey(id, ast.NewIdent("nil"))] = s.callOutcome == "ok"
+					}
+				}
+			}
+			s.callOutcome = ""
 			// boolean flag tracking
 			if len(x.Lhs) == len(x.Rhs) {
 				for i, l := range x.Lhs {
@@ -1903,6 +1967,15 @@ func (fc *fctx) doCall(call *ast.CallExpr, st *lfState, deferred bool) []*lfStat
 			}
 		}
 	}
+	if direct && len(sums) == 1 && sums[0].EffectsFail != nil {
+		// the callee's effect on its locks depends on whether it returns an error: follow both
+		failSt := st.clone()
+		fc.applySummaryEff(call, st, sums[0], true, sums[0].Effects)
+		st.callOutcome = "ok"
+		fc.applySummaryEff(call, failSt, sums[0], true, sums[0].EffectsFail)
+		failSt.callOutcome = "fail"
+		return []*lfState{st, failSt}
+	}
 	for _, cs := range sums {
 		fc.applySummary(call, st, cs, direct)
 	}
@@ -2006,7 +2079,14 @@ func (fc *fctx) applySummaryHeld(call *ast.CallExpr, st *lfState, cs *FuncSummar
 }
 
 func (fc *fctx) applySummary(call *ast.CallExpr, st *lfState, cs *FuncSummary, direct bool) {
+	fc.applySummaryEff(call, st, cs, direct, cs.Effects)
+}
+
+func (fc *fctx) applySummaryEff(call *ast.CallExpr, st *lfState, cs *FuncSummary, direct bool, effs map[string]*KeyEffect) {
 	pos := call.Pos()
+	if direct {
+		cs.Called = true
+	}
 	relTrans := func(rel map[string]bool) map[string]bool {
 		out := map[string]bool{}
 		for k := range rel {
@@ -2114,13 +2194,13 @@ func (fc *fctx) applySummary(call *ast.CallExpr, st *lfState, cs *FuncSummary, d
 		return
 	}
 	// key effects
-	efKeys := make([]string, 0, len(cs.Effects))
-	for k := range cs.Effects {
+	efKeys := make([]string, 0, len(effs))
+	for k := range effs {
 		efKeys = append(efKeys, k)
 	}
 	sort.Strings(efKeys)
 	for _, k := range efKeys {
-		ef := cs.Effects[k]
+		ef := effs[k]
 		tk, ok := fc.translate(call, cs, k)
 		if !ok {
 			continue
@@ -2192,115 +2272,162 @@ func (fc *fctx) callPassesPile(call *ast.CallExpr, pile string) bool {
 func (fc *fctx) finish(exits []*lfState) {
 	s := fc.sum
 	type outcome struct {
-		pre    keyMode
-		delta  int
-		deltaR int
+		pre     keyMode
+		delta   int
+		deltaR  int
 		touched bool
 	}
-	per := map[string]map[outcome]int{}
-	classes := map[string]string{}
-	allKeys := map[string]bool{}
+	// LockPile discipline: a local pile must be empty at every exit
 	for _, ex := range exits {
-		for k := range ex.keys {
-			allKeys[k] = true
-		}
-	}
-	for _, ex := range exits {
-		for k := range allKeys {
-			ks, touched := ex.keys[k]
-			o := outcome{}
-			if touched {
-				classes[k] = ks.class
-				pre := ex.pre[k]
-				o.pre = pre
-				preHeld := 0
-				if pre == kHeld {
-					preHeld = 1
-				}
-				fin := 0
-				if ks.mode == kHeld && ks.pile != "" && !fc.localPile[ks.pile] {
-					// held through a LockPile owned by the caller: the pile's owner releases it
-					fin = preHeld
-				} else if ks.mode == kHeld {
-					fin = 1
-				} else if ks.mode == kUnknown {
-					fin = preHeld
-				}
-				o.delta = fin - preHeld
-				o.deltaR = ks.r
-				o.touched = ex.broken[k]
-			}
-			if per[k] == nil {
-				per[k] = map[outcome]int{}
-			}
-			per[k][o]++
-		}
-		// LockPile discipline: a local pile must be empty at every exit
 		for p, dirty := range ex.piles {
 			if dirty && !strings.HasSuffix(p, "#escaped") && fc.isLocalPileName(p) {
 				fc.diag("pile", p, s.Body.End(), fmt.Sprintf("LockPile %s may still hold locks when the function returns (no UnlockAll on this path)", p), nil)
 			}
 		}
 	}
-	effects := map[string]*KeyEffect{}
-	keys := make([]string, 0, len(per))
-	for k := range per {
-		keys = append(keys, k)
+	type pendingDiag struct {
+		key, msg string
+		path     []string
 	}
-	sort.Strings(keys)
-	for _, k := range keys {
-		outs := per[k]
-		ef := &KeyEffect{Key: k, Class: classes[k]}
-		deltas := map[int]bool{}
-		deltaRs := map[int]bool{}
-		pres := map[keyMode]bool{}
-		for o := range outs {
-			deltas[o.delta] = true
-			deltaRs[o.deltaR] = true
-			if o.pre != kUnknown {
-				pres[o.pre] = true
-			}
-			if o.touched {
-				ef.Touched = true
+	compute := func(exits []*lfState) (map[string]*KeyEffect, []pendingDiag) {
+		var pending []pendingDiag
+		per := map[string]map[outcome]int{}
+		classes := map[string]string{}
+		allKeys := map[string]bool{}
+		for _, ex := range exits {
+			for k := range ex.keys {
+				allKeys[k] = true
 			}
 		}
-		if len(deltas) > 1 || len(deltaRs) > 1 {
-			var ds []string
-			for o, n := range outs {
-				ds = append(ds, fmt.Sprintf("%d exit state(s) with net %+d", n, o.delta+o.deltaR))
+		for _, ex := range exits {
+			for k := range allKeys {
+				ks, touched := ex.keys[k]
+				o := outcome{}
+				if touched {
+					classes[k] = ks.class
+					pre := ex.pre[k]
+					o.pre = pre
+					preHeld := 0
+					if pre == kHeld {
+						preHeld = 1
+					}
+					fin := 0
+					if ks.mode == kHeld && ks.pile != "" && !fc.localPile[ks.pile] {
+						// held through a LockPile owned by the caller: the pile's owner releases it
+						fin = preHeld
+					} else if ks.mode == kHeld {
+						fin = 1
+					} else if ks.mode == kUnknown {
+						fin = preHeld
+					}
+					o.delta = fin - preHeld
+					o.deltaR = ks.r
+					o.touched = ex.broken[k]
+				}
+				if per[k] == nil {
+					per[k] = map[outcome]int{}
+				}
+				per[k][o]++
 			}
-			sort.Strings(ds)
-			ef.Conflict = strings.Join(ds, "; ")
-			fc.diag("balance", k, s.Body.Pos(), fmt.Sprintf("return paths disagree on lock %s: %s", k, ef.Conflict), fc.describeExits(k, exits))
-			// adopt the majority outcome for callers
 		}
-		if pres[kHeld] && pres[kNotHeld] {
-			fc.diag("balance", k, s.Body.Pos(), fmt.Sprintf("some paths unlock %s first (require it held) while others lock it first", k), nil)
+		effects := map[string]*KeyEffect{}
+		keys := make([]string, 0, len(per))
+		for k := range per {
+			keys = append(keys, k)
 		}
-		best, bestN := outcome{}, -1
-		for o, n := range outs {
-			if n > bestN || (n == bestN && (o.delta < best.delta)) {
-				best, bestN = o, n
-			}
-		}
-		ef.Delta, ef.DeltaR = best.delta, best.deltaR
-		if pres[kHeld] {
-			ef.Pre = kHeld
-		} else if pres[kNotHeld] {
-			// only "requires not held" if every exit path locked it first
-			all := true
+		sort.Strings(keys)
+		for _, k := range keys {
+			outs := per[k]
+			ef := &KeyEffect{Key: k, Class: classes[k]}
+			deltas := map[int]bool{}
+			deltaRs := map[int]bool{}
+			pres := map[keyMode]bool{}
 			for o := range outs {
-				if o.pre != kNotHeld {
-					all = false
+				deltas[o.delta] = true
+				deltaRs[o.deltaR] = true
+				if o.pre != kUnknown {
+					pres[o.pre] = true
+				}
+				if o.touched {
+					ef.Touched = true
 				}
 			}
-			if all {
-				ef.Pre = kNotHeld
+			if len(deltas) > 1 || len(deltaRs) > 1 {
+				var ds []string
+				for o, n := range outs {
+					ds = append(ds, fmt.Sprintf("%d exit state(s) with net %+d", n, o.delta+o.deltaR))
+				}
+				sort.Strings(ds)
+				ef.Conflict = strings.Join(ds, "; ")
+				pending = append(pending, pendingDiag{k, fmt.Sprintf("return paths disagree on lock %s: %s", k, ef.Conflict), fc.describeExits(k, exits)})
+				// adopt the majority outcome for callers
+			}
+			if pres[kHeld] && pres[kNotHeld] {
+				pending = append(pending, pendingDiag{k, fmt.Sprintf("some paths unlock %s first (require it held) while others lock it first", k), nil})
+			}
+			best, bestN := outcome{}, -1
+			for o, n := range outs {
+				if n > bestN || (n == bestN && (o.delta < best.delta)) {
+					best, bestN = o, n
+				}
+			}
+			ef.Delta, ef.DeltaR = best.delta, best.deltaR
+			if pres[kHeld] {
+				ef.Pre = kHeld
+			} else if pres[kNotHeld] {
+				// only "requires not held" if every exit path locked it first
+				all := true
+				for o := range outs {
+					if o.pre != kNotHeld {
+						all = false
+					}
+				}
+				if all {
+					ef.Pre = kNotHeld
+				}
+			}
+			if ef.Delta != 0 || ef.DeltaR != 0 || ef.Pre != kUnknown || ef.Touched {
+				effects[k] = ef
 			}
 		}
-		if ef.Delta != 0 || ef.DeltaR != 0 || ef.Pre != kUnknown || ef.Touched {
-			effects[k] = ef
+		return effects, pending
+	}
+	effects, pending := compute(exits)
+	s.EffectsFail = nil
+	if len(pending) > 0 && fc.errorResult {
+		// do the exits agree once they are separated by the error result? Then the function's effect
+		// on its locks is correlated with its result, which callers can follow.
+		var okEx, failEx []*lfState
+		for _, ex := range exits {
+			switch ex.retClass {
+			case "ok":
+				okEx = append(okEx, ex)
+			case "fail":
+				failEx = append(failEx, ex)
+			}
 		}
+		if len(okEx) > 0 && len(failEx) > 0 && len(okEx)+len(failEx) == len(exits) {
+			okEff, okPend := compute(okEx)
+			failEff, failPend := compute(failEx)
+			if len(okPend) == 0 && len(failPend) == 0 {
+				effects, pending = okEff, nil
+				s.EffectsFail = failEff
+				// a key known to one class only is neutral in the other
+				for k, ef := range okEff {
+					if _, ok := failEff[k]; !ok {
+						failEff[k] = &KeyEffect{Key: k, Class: ef.Class, Pre: ef.Pre}
+					}
+				}
+				for k, ef := range failEff {
+					if _, ok := okEff[k]; !ok {
+						okEff[k] = &KeyEffect{Key: k, Class: ef.Class, Pre: ef.Pre}
+					}
+				}
+			}
+		}
+	}
+	for _, pd := range pending {
+		fc.diag("balance", pd.key, s.Body.Pos(), pd.msg, pd.path)
 	}
 	s.Effects = effects
 	// blocking operations that happened while a pre-held key was still held (discovered later on the path)
